@@ -94,7 +94,7 @@ PROPS['C11'] = {
         dict(name='chunk_u64_le2p31', kernel='C11_bulk.cpp', prefix='chunk_', mode='seq', inline=20000, unwind=34, lower_defs=['-DSHAPE=std::uint64_t'], params=[0, 1], unwind_obligation=True),
         dict(name='chunk_i32_le2p31', kernel='C11_bulk.cpp', prefix='chunk_', mode='seq', inline=20000, unwind=34, lower_defs=['-DSHAPE=std::int32_t'], params=[0, 1], unwind_obligation=True),
         dict(name='bulk_run_W1_n20', kernel='C11_bulk_run.cpp', prefix='run_', mode='seq', inline=20000, unwind=10, lower_defs=['-DNMAX=20'], params=[1], covers=[0], timeout=1800),
-        dict(name='bulk_run_W2_n36', kernel='C11_bulk_run.cpp', prefix='run_', mode='seq', inline=20000, unwind=12, lower_defs=['-DNMAX=36'], params=[2], covers=[0], timeout=7000, tiers=('thorough',)),
+        dict(name='bulk_run_W2_n36', kernel='C11_bulk_run.cpp', prefix='run_', mode='seq', inline=20000, unwind=12, lower_defs=['-DNMAX=36'], params=[2], covers=[0], timeout=7000, tiers=('thorough',), unwind_rules=[(r'create_work', 26)]),
     ] + [
         dict(name='tile_u32_W%d' % w, kernel='C11_bulk.cpp', prefix='tile_', mode='seq', inline=20000, unwind=34, lower_defs=['-DSHAPE=std::uint32_t'], params=[w], covers=[0],
              partial_loops_assume=True, timeout=1200, tiers=('quick', 'thorough') if w in (1, 2, 3) else ('thorough',)) for w in (1, 2, 3, 4, 5, 7, 8, 16)
@@ -202,7 +202,11 @@ PROPS['C03'] = {
     ],
     # split / ensure_started keep their continuations in type-erased unique_function objects (pointers stored in byte buffers): under a
     # symbolic schedule CBMC's points-to sets for them degrade and symex needs tens of minutes and > 8 GB -> thorough tier only
-    'queries': [dict(name=n, kernel='C03_concurrent.cpp', prefix=pf, mode='res', shim='shim_sync', inline=20000, R=3, BMAX=60, unwind=4, covers=[0], timeout=to, mem_gb=mem, tiers=tiers)
+    # the operation states of these scenarios are never destroyed, so the shared state of split / ensure_started never loses its last
+    # reference: its destructor is cut (asserted unreachable) - CBMC otherwise executes it symbolically at every intrusive_ptr release
+    'queries': [dict(name=n, kernel='C03_concurrent.cpp', prefix=pf, mode='res', shim='shim_sync', inline=20000, R=3, BMAX=60, unwind=4, covers=[0], timeout=to, mem_gb=mem, tiers=tiers,
+                     cut=['_ZNSt16allocator_traitsISaIN4pika12split_detail12shared_stateI5dleafSaIiEEEEE7destroy',
+                          '_ZNSt16allocator_traitsISaIN4pika21ensure_started_detail21ensure_started_senderI5dleafSaIiEE12shared_stateEEE7destroy'])
                 for n, pf, to, mem, tiers in [('when_all_two_threads', 'wac_', 2400, 14, ('quick', 'thorough')), ('split_concurrent_consumers', 'spc_', 9000, 28, ('thorough',)),
                                               ('ensure_started_concurrent', 'esc_', 9000, 28, ('thorough',))]] +
                [_c03('then_inline', 'then_'), _c03('let_value_inline', 'let_'), _c03('let_error_inline', 'lete_'), _c03('when_all_inline', 'wall_'), _c03('split_two_consumers_inline', 'split_'),
